@@ -122,10 +122,6 @@ theorem skipSpaces_append (ws s : SwcText.Str) (hws : ∀ c ∈ ws, isSpace c = 
 
 /-! ## simulation of the subtree loop on rendered branches -/
 
-theorem float_true (ty : Int) (f : Nat) (v : Sci) (t : List Tok) (root cur : Int) (rows : List Row) :
-    parseSubtree ty (f + 1) (.float v :: t) true root cur rows = .error .tokenType := by
-  simp [parseSubtree]
-
 theorem point_tail (ty : Int) (g : Nat) (x y z r : Sci) (rest : List Tok) (root cur : Int)
     (rows : List Row) (hr : rest.head? ≠ some .bad) :
     parseSubtree ty (g + 1) (.float x :: .float y :: .float z :: .float r :: .rp :: rest) false root cur rows
